@@ -16,6 +16,9 @@ pub enum Step {
     CloneProbe(Op),
     /// clone; continue on the clone
     CloneSwitch,
+    /// Clone::clone_from into another generator (fresh, or with a half of its own pending); continue
+    /// on that generator, which is now a clone
+    CloneFromSwitch { target_half: bool },
 }
 
 impl Step {
@@ -24,6 +27,7 @@ impl Step {
             Step::Out(o) => o.short(),
             Step::CloneProbe(o) => format!("clone>{}", o.short()),
             Step::CloneSwitch => "clone!".into(),
+            Step::CloneFromSwitch { target_half } => format!("clone_from({})!", if *target_half { "half pending" } else { "fresh" }),
         }
     }
 }
@@ -81,7 +85,33 @@ struct Exec<'a> {
     rounds: u8,
     per_word: usize,
     native: &'a [u64],
+    /// timer readings consumed by each collection of the native twin
+    cost: &'a [usize],
     readings: &'a [u64],
+}
+
+/// native-width twin: n collections from `pos` of the readings with the given pool; (values, readings consumed by each)
+fn native_twin(reg: &dyn Registry, readings: &[u64], rounds: u8, pool: Option<u64>, pos: usize, n: usize) -> (Vec<u64>, Vec<usize>) {
+    let sc = TimerScript::new(readings.to_vec());
+    sc.pos.store(pos, std::sync::atomic::Ordering::Relaxed);
+    let mut tw = reg.jitter(sc);
+    tw.jitter().unwrap().set_rounds(rounds);
+    if let Some(p) = pool {
+        tw.jitter().unwrap().set_pool(p);
+    }
+    let mut v = Vec::new();
+    let mut c = Vec::new();
+    for _ in 0..n {
+        let before = tw.jitter().unwrap().timer_consumed();
+        match crate::ops::guarded(|| tw.next_u64()) {
+            Ok(x) => {
+                v.push(x);
+                c.push(tw.jitter().unwrap().timer_consumed() - before);
+            }
+            Err(_) => break,
+        }
+    }
+    (v, c)
 }
 
 impl<'a> Exec<'a> {
@@ -90,12 +120,12 @@ impl<'a> Exec<'a> {
     }
 
     /// one output call on `g`, checked against the statement
-    fn check_out(&self, g: &mut Box<dyn Gen>, b: &mut Book, op: &Op, hist: &[Step], on_clone: bool, counters: &mut Counters) -> bool {
+    fn check_out(&self, native: &[u64], cost: &[usize], g: &mut Box<dyn Gen>, b: &mut Book, op: &Op, hist: &[Step], on_clone: bool, counters: &mut Counters) -> bool {
         let before = g.jitter().unwrap().timer_consumed();
         let had_half = b.half;
         let obs = apply(g, op);
         let used = g.jitter().unwrap().timer_consumed() - before;
-        let (e, nb, fresh) = expect(self.native, *b, op);
+        let (e, nb, fresh) = expect(native, *b, op);
         counters.transitions += 1;
         if had_half {
             counters.with_half_pending += 1;
@@ -107,7 +137,7 @@ impl<'a> Exec<'a> {
             // the recorded corner: the call handed out the pending half without collecting (whatever the
             // values happen to be - with value-directed starts the pending half can equal the fresh word)
             if let (Obs::Bytes(got), Op::Fill(n)) = (&obs, op) {
-                let hi = ((self.native[b.k - 1] >> 32) as u32).to_le_bytes();
+                let hi = ((native[b.k - 1] >> 32) as u32).to_le_bytes();
                 if got[..] == hi[..*n] {
                     counters.known_corner += 1;
                     self.ctx.violation(
@@ -138,7 +168,7 @@ impl<'a> Exec<'a> {
             if tail_corner && used == 0 {
                 // keep exploring past the recorded corner: the pending half has been handed out
                 if let (Obs::Bytes(got), Op::Fill(n)) = (&obs, op) {
-                    let hi = ((self.native[b.k - 1] >> 32) as u32).to_le_bytes();
+                    let hi = ((native[b.k - 1] >> 32) as u32).to_le_bytes();
                     if got[..] == hi[..*n] {
                         b.half = false;
                         return true;
@@ -149,11 +179,11 @@ impl<'a> Exec<'a> {
         }
         // timer readings: a fresh collection reads the timer at least `rounds` times (exactly
         // 1+3*(rounds+1) on this non-stuck script); handing out a pending half reads it 0 times
-        let want = fresh * self.per_word;
+        let want: usize = cost[b.k..(b.k + fresh).min(cost.len())].iter().sum();
         if used != want || (fresh > 0 && used < self.rounds as usize) {
             self.ctx.violation(
                 &format!("C16:readings:{}", op.short()),
-                &format!("rounds {}: after [{}], {} on the {} read the timer {} times instead of {} ({} fresh collection(s) of {} readings)", self.rounds, steps_short(hist), op.short(), who, used, want, fresh, self.per_word),
+                &format!("rounds {}: after [{}], {} on the {} read the timer {} times instead of {} ({} fresh collection(s))", self.rounds, steps_short(hist), op.short(), who, used, want, fresh),
                 self.replay_json(hist),
             );
             return false;
@@ -165,7 +195,24 @@ impl<'a> Exec<'a> {
         true
     }
 
+    /// The values a clone must return are those of a native-width twin of *the clone*: a fresh generator
+    /// given the clone's pool (hook), rounds and timer position. (That the clone's pool is a copy of the
+    /// original's is not part of this property.)
+    fn rebase(&self, reg: &dyn Registry, c: &mut Box<dyn Gen>, k: usize, native: &mut Vec<u64>, cost: &mut Vec<usize>) {
+        let (pos, pool) = {
+            let j = c.jitter().unwrap();
+            (j.timer_consumed(), j.pool())
+        };
+        let (v, cs) = native_twin(reg, self.readings, self.rounds, Some(pool), pos, native.len().saturating_sub(k));
+        for (i, (x, y)) in v.into_iter().zip(cs).enumerate() {
+            native[k + i] = x;
+            cost[k + i] = y;
+        }
+    }
+
     fn run(&self, reg: &dyn Registry, hist: &[Step], counters: &mut Counters) {
+        let mut native: Vec<u64> = self.native.to_vec();
+        let mut cost: Vec<usize> = self.cost.to_vec();
         let script = TimerScript::new(self.readings.to_vec());
         let mut g = reg.jitter_forking(script);
         g.jitter().unwrap().set_rounds(self.rounds);
@@ -178,7 +225,7 @@ impl<'a> Exec<'a> {
             let h = &hist[..=i];
             match st {
                 Step::Out(op) => {
-                    if !self.check_out(&mut g, &mut b, op, h, false, counters) {
+                    if !self.check_out(&native, &cost, &mut g, &mut b, op, h, false, counters) {
                         return;
                     }
                 }
@@ -189,7 +236,10 @@ impl<'a> Exec<'a> {
                     }
                     // the clone: same pool, same timer position, never the original's pending half
                     let mut cb = Book { k: b.k, half: false };
-                    if !self.check_out(&mut c, &mut cb, op, h, true, counters) {
+                    let mut cn = native.clone();
+                    let mut cc = cost.clone();
+                    self.rebase(reg, &mut c, b.k, &mut cn, &mut cc);
+                    if !self.check_out(&cn, &cc, &mut c, &mut cb, op, h, true, counters) {
                         return;
                     }
                     // and the original is not disturbed: checked by the steps that follow
@@ -200,6 +250,23 @@ impl<'a> Exec<'a> {
                     }
                     g = g.clone_box();
                     b.half = false;
+                    self.rebase(reg, &mut g, b.k, &mut native, &mut cost);
+                }
+                Step::CloneFromSwitch { target_half } => {
+                    if b.half {
+                        counters.clones_with_half_pending += 1;
+                    }
+                    // the target lives on a timer of its own until it is overwritten
+                    let mut t = reg.jitter_forking(TimerScript::new(self.readings.to_vec()));
+                    t.jitter().unwrap().set_rounds(self.rounds);
+                    if *target_half {
+                        t.next_u32();
+                        counters.clone_from_into_half_pending += 1;
+                    }
+                    t.clone_from_dyn(g.as_ref());
+                    g = t;
+                    b.half = false;
+                    self.rebase(reg, &mut g, b.k, &mut native, &mut cost);
                 }
             }
         }
@@ -213,17 +280,20 @@ struct Counters {
     with_half_pending: u64,
     pending_half_discarded: u64,
     clones_with_half_pending: u64,
+    clone_from_into_half_pending: u64,
     known_corner: u64,
 }
 
 pub fn run(reg: &dyn Registry, ctx: &Ctx) -> Outcome {
     let thorough = ctx.tier == Tier::Thorough;
-    ctx.assume("scripted non-stuck timers (certified by the reference model); a clone gets an identical scripted timer (independent cursor at the same position), so original and clone are twins");
+    ctx.assume("scripted timers; a clone gets an identical scripted timer (independent cursor at the same position); the values a clone must return are those of a native-width twin built from the clone's own pool (hook), rounds and timer position");
     ctx.assume("expected values are those of a native-width (next_u64 only) twin on the same readings; reading counts are measured on each generator's own cursor");
     let mut outs: Vec<Op> = vec![Op::U32, Op::U64];
     outs.extend([0usize, 1, 2, 3, 4, 5, 6, 7, 8, 9, 12, 16].iter().map(|&n| Op::Fill(n)));
     let mut alphabet: Vec<Step> = outs.iter().cloned().map(Step::Out).collect();
     alphabet.push(Step::CloneSwitch);
+    alphabet.push(Step::CloneFromSwitch { target_half: false });
+    alphabet.push(Step::CloneFromSwitch { target_half: true });
     for op in [Op::U32, Op::U64, Op::Fill(3), Op::Fill(8)] {
         alphabet.push(Step::CloneProbe(op));
     }
@@ -233,11 +303,8 @@ pub fn run(reg: &dyn Registry, ctx: &Ctx) -> Outcome {
         let max_words = depth * 2 + 2;
         let readings = jitter_env::benign_readings(ctx.seed ^ 0x16 ^ ((rounds as u64) << 16), rounds, max_words, 8);
         // native twin: next_u64 only
-        let native: Vec<u64> = {
-            let (mut g, _) = jitter_env::jitter_with(reg, readings.clone(), Some(rounds));
-            (0..max_words).map(|_| g.next_u64()).collect()
-        };
-        let ex = Exec { ctx, init_pool: None, rounds, per_word: jitter_env::readings_per_word(rounds), native: &native, readings: &readings };
+        let (native, cost) = native_twin(reg, &readings, rounds, None, 0, max_words);
+        let ex = Exec { ctx, init_pool: None, rounds, per_word: jitter_env::readings_per_word(rounds), native: &native, cost: &cost, readings: &readings };
         // all histories of exactly `depth` steps (every prefix is checked along the way)
         let n = alphabet.len();
         let count = n.pow(depth as u32);
@@ -260,6 +327,7 @@ pub fn run(reg: &dyn Registry, ctx: &Ctx) -> Outcome {
             total.with_half_pending += c.with_half_pending;
             total.pending_half_discarded += c.pending_half_discarded;
             total.clones_with_half_pending += c.clones_with_half_pending;
+            total.clone_from_into_half_pending += c.clone_from_into_half_pending;
             total.known_corner += c.known_corner;
         }
         ctx.add("states", count as u64);
@@ -282,12 +350,8 @@ pub fn run(reg: &dyn Registry, ctx: &Ctx) -> Outcome {
             }
         }
         for p in pools {
-            let native: Vec<u64> = {
-                let (mut g, _) = jitter_env::jitter_with(reg, readings.clone(), Some(rounds));
-                g.jitter().unwrap().set_pool(p);
-                (0..max_words).map(|_| g.next_u64()).collect()
-            };
-            let ex = Exec { ctx, init_pool: Some(p), rounds, per_word: jitter_env::readings_per_word(rounds), native: &native, readings: &readings };
+            let (native, cost) = native_twin(reg, &readings, rounds, Some(p), 0, max_words);
+            let ex = Exec { ctx, init_pool: Some(p), rounds, per_word: jitter_env::readings_per_word(rounds), native: &native, cost: &cost, readings: &readings };
             let n = alphabet.len();
             let count = n.pow(depth as u32);
             let cs: Vec<Counters> = (0..count)
@@ -309,10 +373,61 @@ pub fn run(reg: &dyn Registry, ctx: &Ctx) -> Outcome {
                 total.with_half_pending += c.with_half_pending;
                 total.pending_half_discarded += c.pending_half_discarded;
                 total.clones_with_half_pending += c.clones_with_half_pending;
+                total.clone_from_into_half_pending += c.clone_from_into_half_pending;
                 total.known_corner += c.known_corner;
             }
             ctx.add("states", count as u64);
             ctx.add("value_directed_starts", 1);
+        }
+    }
+
+    // timers with long runs of stuck measurements inside the first, second or third collection: the
+    // native twin retries on the same readings, so values and reading counts stay well defined
+    {
+        let outs2 = [Op::U32, Op::U64, Op::Fill(3), Op::Fill(9)];
+        let mut alpha2: Vec<Step> = outs2.iter().cloned().map(Step::Out).collect();
+        alpha2.push(Step::CloneSwitch);
+        let depth = 3usize;
+        let max_words = depth * 2 + 2;
+        for rounds in [1u8, 2] {
+            let per = jitter_env::readings_per_word(rounds);
+            for l in [31usize, 33, 130, 1030] {
+                for (which, kind) in [(0usize, jitter_env::Dev::Repeat3), (1, jitter_env::Dev::SameDelta), (2, jitter_env::Dev::Repeat3)] {
+                    let base = jitter_env::raw_readings(ctx.seed ^ 0x16AA ^ l as u64 ^ ((rounds as u64) << 20), per * (max_words + 2) + 3 * l + 64);
+                    let readings = jitter_env::with_stuck_run(&base, per * which + 5, l, kind);
+                    let (native, cost) = native_twin(reg, &readings, rounds, None, 0, max_words);
+                    if native.len() < max_words {
+                        ctx.machinery("C16 stuck-run script too short for the native twin");
+                        continue;
+                    }
+                    let ex = Exec { ctx, init_pool: None, rounds, per_word: per, native: &native, cost: &cost, readings: &readings };
+                    let n = alpha2.len();
+                    let count = n.pow(depth as u32);
+                    let cs: Vec<Counters> = (0..count)
+                        .into_par_iter()
+                        .map(|mut idx| {
+                            let mut hist = Vec::with_capacity(depth);
+                            for _ in 0..depth {
+                                hist.push(alpha2[idx % n].clone());
+                                idx /= n;
+                            }
+                            let mut c = Counters::default();
+                            ex.run(reg, &hist, &mut c);
+                            c
+                        })
+                        .collect();
+                    for c in cs {
+                        total.executions += c.executions;
+                        total.transitions += c.transitions;
+                        total.with_half_pending += c.with_half_pending;
+                        total.pending_half_discarded += c.pending_half_discarded;
+                        total.clones_with_half_pending += c.clones_with_half_pending;
+                        total.known_corner += c.known_corner;
+                    }
+                    ctx.add("states", count as u64);
+                    ctx.add("stuck_run_timers", 1);
+                }
+            }
         }
     }
 
@@ -342,6 +457,7 @@ pub fn run(reg: &dyn Registry, ctx: &Ctx) -> Outcome {
     ctx.set("transitions_with_half_pending", total.with_half_pending);
     ctx.set("pending_half_discarded", total.pending_half_discarded);
     ctx.set("clones_with_half_pending", total.clones_with_half_pending);
+    ctx.set("clone_from_into_half_pending", total.clone_from_into_half_pending);
     ctx.set("known_corner_hits", total.known_corner);
     for (n, v) in [("transitions_with_half_pending", total.with_half_pending), ("pending_half_discarded", total.pending_half_discarded), ("clones_with_half_pending", total.clones_with_half_pending)] {
         if v == 0 {
@@ -357,7 +473,7 @@ pub fn run(reg: &dyn Registry, ctx: &Ctx) -> Outcome {
             traces: "executions",
             evaluations: "executions",
             distinct: "states",
-            rule: "states = every history of the stated depth over {next_u32, next_u64, fill_bytes(0..=9,12,16), clone-and-continue-on-clone, clone-and-take-one-output-from-the-clone(u32|u64|fill3|fill8)} for rounds 1,2,3,64,255; every step is checked for its value (native twin) and for the number of timer readings it performed (own cursor); distinct by construction".into(),
+            rule: "states = every history of the stated depth over {next_u32, next_u64, fill_bytes(0..=9,12,16), clone-and-continue-on-clone, clone_from-into-{fresh, half-pending}-generator-and-continue-there, clone-and-take-one-output-from-the-clone(u32|u64|fill3|fill8)} for rounds 1,2,3,64,255; every step is checked for its value (native twin) and for the number of timer readings it performed (own cursor); distinct by construction".into(),
         },
     }
 }
